@@ -97,7 +97,15 @@ def base_d():
          "/items/{id}": {"parameters": [{"name": "id", "in": "path", "required": True, "schema": {"type": "integer"}}],
                          "get": {"operationId": "getItem", "responses": ok(iobj(item=ref("Item"), etag={"type": "string"}))},
                          "patch": {"operationId": "patchItem", "requestBody": {"content": {"application/json": {"schema": iobj(state=ref("State"))}}}, "responses": ok(ref("Item"))}},
-         "/plain": {"get": {"operationId": "getPlain", "responses": {"204": {"description": "n"}}}}}
+         "/plain": {"get": {"operationId": "getPlain", "responses": {"204": {"description": "n"}}}},
+         # shared path-item parameters: inherited by one operation, re-declared (same name and location) by the others
+         "/shared": {"parameters": [{"name": "q", "in": "query", "schema": {"type": "string"}}, {"name": "X-T", "in": "header", "schema": {"type": "string"}}],
+                     "get": {"operationId": "listShared", "responses": ok(ref("Item"))},
+                     "post": {"operationId": "createShared", "parameters": [{"name": "q", "in": "query", "schema": {"type": "boolean"}}],
+                              "requestBody": {"content": {"application/json": {"schema": iobj(note={"type": "string"})}}}, "responses": {"204": {"description": "n"}}},
+                     "delete": {"operationId": "purgeShared", "parameters": [{"name": "q", "in": "query", "required": True, "schema": {"type": "integer"}},
+                                                                              {"name": "X-T", "in": "header", "schema": {"type": "string", "enum": ["a", "b"]}}],
+                                "responses": {"204": {"description": "n"}}}}}
     return gen.base_doc(S, paths=P)
 
 
@@ -146,6 +154,17 @@ def insert(doc, bad_name, pos, base="A"):
             else:
                 s["additionalProperties"] = bad
             return d, {("schema", pos[1])}
+        if kind == "itemparam":
+            # the schema of the i-th path-item level parameter: carried by the operations that INHERIT it (do not re-declare name+location)
+            p, i = pos[1], pos[2]
+            item = d["paths"][p]
+            prm = item["parameters"][i]
+            prm["schema"] = bad
+            carriers = set()
+            for m in item:
+                if m in deps.METHODS and not any(isinstance(q, dict) and q.get("name") == prm["name"] and q.get("in") == prm["in"] for q in item[m].get("parameters", [])):
+                    carriers.add(("op", m, p))
+            return d, carriers
         m, p = pos[1], pos[2]
         op = d["paths"][p][m]
         if kind == "param":
@@ -188,11 +207,15 @@ def positions(doc):
         pos += [("prop", s), ("item", s), ("union", s), ("addl", s)]
     for m, p in _ops(doc):
         pos += [("param", m, p), ("resp", m, p), ("body", m, p), ("op", m, p)]
+    for p, item in doc["paths"].items():
+        for i, prm in enumerate(item.get("parameters", [])):
+            if isinstance(prm, dict) and "schema" in prm and prm.get("in") != "path":
+                pos.append(("itemparam", p, i))
     return pos
 
 
 def pos_name(pos):
-    return pos[0] + ":" + ("/".join(pos[1:]) if len(pos) > 1 else "Znew")
+    return pos[0] + ":" + ("/".join(map(str, pos[1:])) if len(pos) > 1 else "Znew")
 
 
 def cases(tier):
@@ -254,6 +277,10 @@ def run_case(p):
         return {"violations": [{"oracle": "whole-document-rejected", "site": "-", "key": key, "detail": r1.diags[0].short()}], "outcome": "rejected"}
     cone = deps.cone(dprime, carriers)
     dout = deps.remove_units(dprime, cone)
+    for bad, pos in p["faults"]:
+        if pos[0] == "itemparam" and pos[1] in dout["paths"]:      # the shared parameter goes with the operations that inherited it
+            prm = dout["paths"][pos[1]]["parameters"]
+            dout["paths"][pos[1]]["parameters"] = [q for j, q in enumerate(prm) if j != pos[2]]
     r2 = gen.generate(dout)
     r0 = gen.generate(copy.deepcopy(d0))
     viol = []
